@@ -134,7 +134,7 @@ func runServiceScenario(s *sScript, slow int) *trace.Log {
 	cfg.KeepAlive = "0s"
 	cfg.ValidateSubs = !s.Config.NoValid
 	cfg.Dialer = &sDialer{sc: sc, cfg: &s.Config}
-	log.Add("config", "script", s.ID, "family", s.Family, "clean", s.Config.Clean, "validate", !s.Config.NoValid, "resub", !s.Config.NoResub)
+	log.Add("config", "script", s.ID, "family", s.Family, "clean", s.Config.Clean, "validate", !s.Config.NoValid, "resub", !s.Config.NoResub, "qs", qs)
 
 	step := func(st sStep, wait bool) {
 		switch st.Do {
